@@ -51,9 +51,19 @@ func runC04(c *wk.Ctx) {
 	c.Cases(n, func(idx int64, r *wk.Rand) {
 		cfg := gen.Full()
 		var shape *gen.Shape
-		if tricky := gen.TrickyShapes(); idx < int64(4*len(tricky)) {
+		tricky := gen.TrickyShapes()
+		if idx < int64(4*len(tricky)) {
 			shape = tricky[int(idx)%len(tricky)]
 			c.Count("tricky_shapes")
+		} else if se := gen.SelfExpandingShapes(); idx < int64(4*len(tricky)+2*len(se)) {
+			// scopes whose default leads back to its own property: refused by the constructors - or, if not,
+			// still subject to everything below
+			shape = se[int(idx-int64(4*len(tricky)))%len(se)]
+			if _, ok, _ := buildGuarded(shape); !ok {
+				c.Count("self_expanding_defaults_refused")
+				return
+			}
+			c.Count("self_expanding_defaults_ACCEPTED")
 		} else {
 			shape = nil
 		}
